@@ -149,7 +149,12 @@ fn format_variant(
                         Some(type_override) => quote!(#type_override),
                         None => {
                             let ty = field_attr.type_as(&field.ty);
-                            quote!(<#ty as #crate_rename::TS>::name())
+                            // the dependencies of an inlined field are those of its inline form
+                            if field_attr.inline {
+                                quote!(<#ty as #crate_rename::TS>::inline())
+                            } else {
+                                quote!(<#ty as #crate_rename::TS>::name())
+                            }
                         }
                     };
                     quote!(
@@ -180,7 +185,13 @@ fn format_variant(
                             Some(type_override) => quote! { #type_override },
                             None => {
                                 let ty = field_attr.type_as(&field.ty);
-                                quote!(<#ty as #crate_rename::TS>::name())
+                                // the dependencies of an inlined field are those of its inline form,
+                                // which may be a union: `&` binds tighter than `|`
+                                if field_attr.inline {
+                                    quote!(format!("({})", <#ty as #crate_rename::TS>::inline()))
+                                } else {
+                                    quote!(<#ty as #crate_rename::TS>::name())
+                                }
                             }
                         };
 
